@@ -93,5 +93,8 @@ package sqlx
 //@   requires (forall c *schema.ModifyTable :: c != nil ==> c.T != nil)
 //@   requires (forall c *schema.DropTable :: c != nil ==> c.T != nil)
 //@   requires (forall t *schema.Table, k int :: t != nil && 0 <= k && k < len(t.Columns) ==> t.Columns[k] != nil && t.Columns[k].Type != nil)
+//@   requires (forall ct *schema.ColumnType :: ct != nil && GvcIs[*schema.EnumType](ct.Type) ==> ct.Type.(*schema.EnumType) != nil)
 //@   loop 1 invariant names != nil
 //@   loop 2 invariant names != nil && t != nil
+//@   loop 3 localwrites
+//@   loop 3 invariant GvcFresh(ks)
